@@ -15,6 +15,7 @@ CONFIG = dict(
           "configuration, number of epochs, cases without any block."),
     assumptions=["forking validators hold < 1/3 of the weight (generator enforces it; the reference reports any state only reachable otherwise)",
                  "events of a sealed epoch are no longer fed, as real callers do"],
+    level_more='Unit TestC10Shapes runs the property on the large shapes (see C01).',
     units=[dict(test="TestC10Reference", quick=3000, thorough=200000, shards=16),
            # the rare large shapes (see DESIGN 3.1): 65-70 validators at the quorum margin, one huge block, mass forks
            dict(test="TestC10Shapes", quick=8, thorough=480, shards=16)],
